@@ -34,7 +34,7 @@ FLOORS = {"quick": {"histories": 6000, "callbacks_matched": 40000, "expiries_on_
 
 FOREVER = 0xFFFFFF
 TTLS = (1, 1, 2, 2, 3, 3, 0xFFFFFE, FOREVER)
-ADDRS = (("10.0.1.1", 30490), ("10.0.1.2", 30490))
+ADDRS = (("10.0.1.1", 30490), ("10.0.1.1", 30491))  # same host, other port
 NKEYS = 3
 
 
